@@ -219,13 +219,17 @@ theorem firstTokPrec_reverse (precs : List (Str × Prec)) (syms : List ASym) :
       | tok m sp => simp [firstTokPrec, ASym.isTok, ASym.name]
       | rule m sp => simp [firstTokPrec, ASym.isTok]
 
-/-- declarative reading of `resolveSyms`: every symbol through its map, the implicit rule after every token -/
+/-- the image of one symbol of the source: its index under the rule / token map; after a token the
+implicit rule, if there is one -/
+def symImage (rmap tmap : Str → Option Nat) (impl : Option Nat) : ASym → Option (List Sym)
+  | ASym.rule n _ => (rmap n).map (fun r => [Sym.rule r])
+  | ASym.tok n _ => (tmap n).map (fun t => match impl with
+      | none => [Sym.tok t]
+      | some r => [Sym.tok t, Sym.rule r])
+
+/-- declarative reading of `resolveSyms`: the concatenation of the images of the symbols, in order -/
 def resolveSpec (rmap tmap : Str → Option Nat) (impl : Option Nat) (syms : List ASym) : Option (List Sym) :=
-  (syms.mapM (fun s => match s with
-    | ASym.rule n _ => (rmap n).map (fun r => [Sym.rule r])
-    | ASym.tok n _ => (tmap n).map (fun t => match impl with
-        | none => [Sym.tok t]
-        | some r => [Sym.tok t, Sym.rule r]))).map List.flatten
+  (syms.mapM (symImage rmap tmap impl)).map List.flatten
 
 /-! ### the main loop: a generic invariant rule -/
 
